@@ -13,6 +13,7 @@ SPEC = streamcheck.StreamSpec(
     cfg=progs.GenConfig(n_cmds=(4, 36), p_list=0.10),
     n_quick=1200, n_thorough=40000,
     nontrivial=nontrivial,
+    evalcheck=True,
     rule='random build programs over all 26 operation classes (relation to an earlier handle p=0.45, foreign handle '
          'p=0.05, nesting, counts 1-3 fixed/registry, global-duration overrides, registry durations incl. 0); '
          'listing/times/duration observed at random points and at the end; non-trivial = explicit relations of >= 2 '
